@@ -44,6 +44,9 @@ def grammar_cases():
             cases.append(('%s/%d' % (quad, n), (96 + n, ipaddress.IPv6Address('::ffff:' + quad).packed)))
         cases.append(('%s/33' % quad, None)); cases.append(('%s/' % quad, None)); cases.append(('%s/a' % quad, None))
     cases.append(('192.168/16', (112, ipaddress.IPv6Address('::ffff:192.168.0.0').packed)))
+    for t, n in (('2001:DB8::/32', 32), ('FE80::/10', 10), ('AbCd:EF01::/64', 64), ('::FFFF:10.0.0.0/8', 104), ('2001:DB8:A:B:C:D:E:F', 128), ('FFFF:*', 16)):
+        cases.append((t, (n, ipaddress.IPv6Address(t.split('/')[0].replace(':*', '::')).packed)))
+    cases.append(('::/1', (1, bytes(16)))); cases.append(('::/0', (0, bytes(16)))); cases.append(('0.0.0.0/0', (96, ipaddress.IPv6Address('::ffff:0.0.0.0').packed)))
     # plain addresses given where a mask may be given: the whole address is the prefix (128 bits), in every spelling of "::"
     for t in ('1:2:3:4:5:6:7:8', '1:2:3:4:5:6:7::', '::2:3:4:5:6:7:8', '1::3:4:5:6:7:8', '1:2:3:4::6:7:8', '1:2:3:4:5:6::8', '::', '::1', '1::', 'a:b::c:d', '2001:db8::',
               '0:0:0:0:0:0:0:0', 'ffff:ffff:ffff:ffff:ffff:ffff:ffff:ffff', '1:2:3:4:5:6:7:0', '0:2:3:4:5:6:7:8'):
@@ -108,7 +111,10 @@ def main(tier):
             elif bits != exp[0] or bytes.fromhex(mhex) != exp[1]:
                 run.violation('pton/wrong-mask', '%r should give /%d %s, got /%d %s' % (t, exp[0], exp[1].hex(), bits, mhex), {'engine': 'core_vh addr ptonfile', 'text': t}, dedup='wrongmask|' + t.split('/')[0][:12])
     # 4. class-rule address criterion through the daemon
-    rule_cases = class_path(run, b, [c for c in cases if c[1] is not None and ('/' in c[0] or '*' in c[0])][:: (6 if run.tier == 'quick' else 1)])
+    maskc = [c for c in cases if c[1] is not None and ('/' in c[0] or '*' in c[0])]
+    zero_lead = [c for c in maskc if c[1][1][:14] in (bytes(14), bytes(10) + b'\xff\xff' + bytes(2))]      # networks whose leading groups are all zero (0.0.0.0/n, ::/n ...)
+    picked = maskc[:: (6 if run.tier == 'quick' else 1)]
+    rule_cases = class_path(run, b, picked + [c for c in zero_lead if c not in picked])
     cov = {'evaluations': int(mask_calls) + nstr * 4 + len(cases) + rule_cases,
            'distinct_nontrivial': int(tot.get('nontrivial', 0)),
            'rule': 'mask: 2 bases x 8 groups x 65536 differences x 132 lengths + group pairs; strings: every string of length <= %d over "01259af:./*" (x4 call modes), '
@@ -135,6 +141,7 @@ def class_path(run, b, cases):
             return '0' + t if t.startswith(':') else t
         if bits < 128:
             probes.append((fmt(n6 ^ 1), True))               # differs in the last host bit: inside
+            probes.append((fmt(n6 | ((1 << (128 - bits)) - 1)), True))   # every host bit set (the last address of the prefix): inside
         probes.append((fmt(n6), True))
         if bits > 0:
             probes.append((fmt(n6 ^ (1 << (128 - bits))), False))   # differs in the last prefix bit: outside
